@@ -10,6 +10,7 @@ the id from the node URI and produces the 1.1 dictionary layout.
 NOT decided: literal fidelity per serialisation, equality of the re-imported documents, sibling order.
 """
 import ast
+import re
 
 from ..astutil import calls_in, call_name, where, truthiness_tests, local_assignments
 from ..cfg import build_cfg
@@ -411,6 +412,21 @@ def run(prog, rep):
     rep.check(not reaches, "READ-3", "RDFReader.__init__ does not convert", "no path to to_odml",
               "RDFReader.__init__ reaches to_odml: the documents are converted once by the constructor and again by the caller's to_odml()", ri.where,
               witness="len(RDFReader(path, 'turtle').to_odml()) == 2 for a file holding one document")
+
+    # every Document node of the graph yields one document: the append in to_odml depends on nothing the reader has collected so far
+    rep.rule("READ-4", "RDFReader.to_odml: every `self.docs.append(<parsed document>)` is unconditional with respect to self.docs (no membership test, "
+                       "no comparison with documents read before - odML == is a deep content comparison that ignores ids, so two documents built "
+                       "from one template would count as one)")
+    tod = Rd.lookup_method("to_odml")
+    gt = build_cfg(tod)
+    from ..astutil import atoms_at as _atoms_at
+    apps = [n for n in gt.nodes if any(unparse(c.func) == "%s.docs.append" % tod.params[0] for r in n.expr_roots() for c in calls_in(r))]
+    rep.floor("READ-4", len(apps), 1, "self.docs.append in to_odml")
+    for n in apps:
+        ats = [t for t, _, _ in _atoms_at(gt, n) if re.search(r"\b%s\.docs\b" % re.escape(tod.params[0]), t)]
+        rep.check(not ats, "READ-4", "to_odml appends every parsed document", "unconditional",
+                  "to_odml appends a parsed document only if {%s}: a document whose content equals an earlier one is dropped" % ", ".join(ats),
+                  where(tod, n.ast), witness="export a document and its clone(): one document comes back")
 
     from ..report import import_verdicts
     import_verdicts(prog, rep, "C05", ("RET-1",), "RET-1",
